@@ -4,13 +4,14 @@ package cpu65c816
 
 // Contracts for the snesvc verifier (/verif). Comment-only; compiled only with -tags verif.
 
-// Summary of Step used by callers (System.RunUntil). Its cycle clause is proved per opcode by the lemmas
-// StepCycles65 (property C12); here it is assumed for every state, including pending interrupts.
+// Summary of Step used by callers (System.RunUntil). Its cycle clauses (count in 1..32, running total advanced
+// by the count) are proved per opcode by the lemmas StepCycles65 (property C12); here it is assumed for every state, including pending interrupts.
 //@ func (*CPU).Step
 //@   params cpu
 //@   modular
 //@   trusted
 //@   ensures ret1 >= 1 && ret1 <= 32
+//@   ensures cpu.AllCycles == old(cpu.AllCycles) + uint64(ret1)
 //@   assigns *cpu, cpu.Bus.EA, cpu.Bus.Write
 
 // The disassembler only writes its output slice and the bus debug fields (frame proved under C14).
